@@ -21,13 +21,21 @@ import (
 	"context"
 	"encoding/json"
 	"errors"
+	"fmt"
 	"os"
+	"path/filepath"
+	"sort"
+	"strings"
 	"sync"
 	"time"
 
 	openfgav1 "github.com/openfga/api/proto/openfga/v1"
+	authzGraph "github.com/openfga/language/pkg/go/graph"
+	"github.com/pressly/goose/v3"
 	"go.uber.org/zap"
 	"google.golang.org/grpc/status"
+
+	"github.com/openfga/openfga/assets"
 
 	"github.com/openfga/openfga/internal/check"
 	"github.com/openfga/openfga/internal/condition"
@@ -40,6 +48,9 @@ import (
 	"github.com/openfga/openfga/pkg/server/commands"
 	"github.com/openfga/openfga/pkg/server/commands/v2breaking"
 	serverconfig "github.com/openfga/openfga/pkg/server/config"
+	"github.com/openfga/openfga/pkg/storage"
+	"github.com/openfga/openfga/pkg/storage/sqlcommon"
+	"github.com/openfga/openfga/pkg/storage/sqlite"
 	"github.com/openfga/openfga/pkg/tuple"
 )
 
@@ -228,6 +239,7 @@ var _ logger.Logger = (*capLogger)(nil)
 // ---- one scenario ------------------------------------------------------------------------------
 
 type runOpts struct {
+	Backend  string   `json:"backend"` // memory | sqlite
 	Subjects []string `json:"subjects"`
 	Limit    int      `json:"limit"`  // v2 concurrency limit
 	Sample   int      `json:"sample"` // server-level run for 1 in Sample uninteresting requests
@@ -235,8 +247,71 @@ type runOpts struct {
 
 var strategies = [][]string{{"default"}, {"weight2"}, {"recursive"}}
 
+// ---- sqlite backend: one database per driver run (created offline with the repository's own
+// migrations), one store per scenario ------------------------------------------------------------
+
+type noClose struct{ storage.OpenFGADatastore }
+
+func (noClose) Close() {}
+
+var (
+	sqliteDS  storage.OpenFGADatastore
+	sqliteDir string
+)
+
+func sqliteBackend() storage.OpenFGADatastore {
+	if sqliteDS != nil {
+		return noClose{sqliteDS}
+	}
+	dir, err := os.MkdirTemp("", "c03-sqlite-*")
+	if err != nil {
+		panic(err)
+	}
+	sqliteDir = dir
+	goose.SetLogger(goose.NopLogger())
+	goose.SetBaseFS(assets.EmbedMigrations)
+	uri := fmt.Sprintf("file:%s?_pragma=journal_mode(WAL)&_pragma=busy_timeout(5000)&_pragma=synchronous(NORMAL)", filepath.Join(dir, "database.db"))
+	db, err := goose.OpenDBWithDriver("sqlite", uri)
+	if err != nil {
+		panic(err)
+	}
+	if err := goose.Up(db, assets.SqliteMigrationDir); err != nil {
+		panic(err)
+	}
+	if err := db.Close(); err != nil {
+		panic(err)
+	}
+	ds, err := sqlite.New(uri, sqlcommon.NewConfig())
+	if err != nil {
+		panic(err)
+	}
+	sqliteDS = ds
+	return noClose{ds}
+}
+
+func sqliteCleanup() {
+	if sqliteDS != nil {
+		sqliteDS.Close()
+	}
+	if sqliteDir != "" {
+		os.RemoveAll(sqliteDir)
+	}
+}
+
 func runScenario(ctx context.Context, w *rec.Writer, r *rec.Rand, s *scen.Scenario, ro *runOpts) {
-	env, err := scen.NewEnv(ctx, s)
+	if ro.Backend == "" {
+		ro.Backend = "memory"
+		if r.Chance(1, 4) {
+			ro.Backend = "sqlite"
+		}
+	}
+	var env *scen.Env
+	var err error
+	if ro.Backend == "sqlite" {
+		env, err = scen.NewEnvOn(ctx, sqliteBackend(), s)
+	} else {
+		env, err = scen.NewEnv(ctx, s)
+	}
 	if err != nil {
 		if errors.Is(err, scen.ErrModelRejected) {
 			w.Stat("models_rejected", 1)
@@ -246,6 +321,7 @@ func runScenario(ctx context.Context, w *rec.Writer, r *rec.Rand, s *scen.Scenar
 	}
 	defer env.Close()
 	w.Stat("models_accepted", 1)
+	w.Stat("backend_"+ro.Backend, 1)
 	w.Stat("shape_"+s.Shape, 1)
 	in := scen.NewIntern()
 	model := in.Model(s)
@@ -295,6 +371,42 @@ func runScenario(ctx context.Context, w *rec.Writer, r *rec.Rand, s *scen.Scenar
 			commands.WithCheckQueryV2Fallback(v1cmd),
 		)
 	}
+	// userset edges the weighted graph marks recursive / part of a tuple cycle (trusted input of
+	// the oracle's semantics variants: edge and weight semantics of openfga/language are not re-derived)
+	var cycs, cyct []string
+	if mgErr == nil {
+		for _, edges := range mg.GetEdges() {
+			for _, e := range edges {
+				if !e.IsPartOfTupleCycle() && e.GetRecursiveRelation() == "" {
+					continue
+				}
+				if e.GetEdgeType() == authzGraph.DirectEdge && e.GetTo().GetNodeType() == authzGraph.SpecificTypeAndRelation {
+					cycs = append(cycs, e.GetRelationDefinition()+"|"+e.GetTo().GetUniqueLabel())
+				}
+				if e.GetEdgeType() == authzGraph.TTUEdge {
+					cyct = append(cyct, e.GetRelationDefinition()+"|"+e.GetTo().GetUniqueLabel())
+				}
+			}
+		}
+		sort.Strings(cycs)
+		sort.Strings(cyct)
+	}
+	encEdges := func(l []string) []rec.V {
+		var out []rec.V
+		for i, c := range l {
+			if i > 0 && l[i-1] == c {
+				continue
+			}
+			parts := strings.SplitN(c, "|", 2)
+			dt, dr := tuple.SplitObjectRelation(parts[0])
+			ut, ur := tuple.SplitObjectRelation(parts[1])
+			out = append(out, rec.L(rec.I(in.T(dt)), rec.I(in.R(dr)), rec.I(in.T(ut)), rec.I(in.R(ur))))
+		}
+		return out
+	}
+	cycv, cyctv := encEdges(cycs), encEdges(cyct)
+	w.Stat("cyclic_userset_edges", len(cycv))
+	w.Stat("cyclic_ttu_edges", len(cyctv))
 	capl := &capLogger{}
 	srv := server.MustNewServerWithOpts(
 		server.WithDatastore(env.DS),
@@ -437,15 +549,20 @@ func runScenario(ctx context.Context, w *rec.Writer, r *rec.Rand, s *scen.Scenar
 	if mgErr != nil {
 		mgok = 0
 	}
+	backend := 0
+	if ro.Backend == "sqlite" {
+		backend = 1
+	}
 	w.Case(map[string]any{"scenario": s, "opts": ro, "text": s.String(),
 		"names": map[string]any{"t": in.TypeNames, "r": in.RelNames, "i": in.IDNames}},
-		rec.I(1), model, conds, rec.L(tvs...), atoms, rec.I(maxDepth), rec.I(mgok), rec.L(svs...))
+		rec.I(1), model, conds, rec.L(tvs...), atoms, rec.I(maxDepth), rec.I(mgok), rec.I(backend), rec.L(cycv...), rec.L(cyctv...), rec.L(svs...))
 }
 
 func main() {
 	o := rec.ParseFlags()
 	w := rec.NewWriter(o.Out)
 	defer w.Close()
+	defer sqliteCleanup()
 	ctx := context.Background()
 	if o.Replay != "" {
 		f, err := os.Open(o.Replay)
